@@ -358,6 +358,130 @@ def runSetters (d : DateObj) : List (Setter × List FV) → DateObj × List Num
     let (fin, rs) := runSetters d' rest
     (fin, r :: rs)
 
+-- ---------------------------------------------------------------- the host zone (time.Local) and the local-time methods
+
+/-- time.Local as the model sees it: a fixed offset (time.UTC, time.FixedZone), or one of two rule-based zones
+    of the tz database: America/New_York (rule in force since 2007: EST −5h, EDT from the second Sunday of March
+    07:00 UTC to the first Sunday of November 06:00 UTC) and Europe/London (since 1996: GMT, BST from the last
+    Sunday of March 01:00 UTC to the last Sunday of October 01:00 UTC).  Go's zone tables and their extension rule
+    are a stub, validated per sample; the rules are only claimed from 2007 / 1996 on. -/
+inductive Zone where
+  | fixed (offset : Int)
+  | ny
+  | lon
+deriving DecidableEq, Repr
+
+/-- days from 1970-01-01 to January 1 of `year` -/
+def jan1 (year : Int) : Int := goDaysSinceEpoch year - 106751991073094
+
+def leapDay (year : Int) : Int := if goIsLeap year then 1 else 0
+
+/-- first Sunday on or after day number d (day 0 = Thursday 1970-01-01) -/
+def sundayOnOrAfter (d : Int) : Int := d + (7 - (d + 4) % 7) % 7
+/-- last Sunday on or before day number d -/
+def sundayOnOrBefore (d : Int) : Int := d - (d + 4) % 7
+
+/-- (standard offset, start and end of daylight time in `year`, in Unix seconds) -/
+def Zone.rule (z : Zone) (year : Int) : Int × Int × Int :=
+  match z with
+  | .fixed o => (o, 0, 0)
+  | .ny => (-18000, (sundayOnOrAfter (jan1 year + 59 + leapDay year) + 7) * 86400 + 25200,
+                    sundayOnOrAfter (jan1 year + 304 + leapDay year) * 86400 + 21600)
+  | .lon => (0, sundayOnOrBefore (jan1 year + 89 + leapDay year) * 86400 + 3600,
+                sundayOnOrBefore (jan1 year + 303 + leapDay year) * 86400 + 3600)
+
+/-- Location.lookup(sec): (offset, start, end) of the zone period containing the instant.
+    (alpha/omega of a fixed zone are modelled as ∓2^63.) -/
+def Zone.lookup (z : Zone) (sec : Int) : Int × Int × Int :=
+  match z with
+  | .fixed o => (o, -(2^63), 2^63 - 1)
+  | _ =>
+    let year := (goYearDay (sec + 9223372028715321600)).1
+    -- British Standard Time, all of 1969 and 1970 at +1h (needed for `time.Date(1970, 1, 1, …, time.Local)`)
+    if z = .lon ∧ 1969 ≤ year ∧ year ≤ 1970 then (3600, -38361600, 57722400) else
+    let (std, s, e) := z.rule year
+    if sec < s then (std, (z.rule (year - 1)).2.2, s)
+    else if sec < e then (std + 3600, s, e)
+    else (std, e, (z.rule (year + 1)).2.1)
+
+def Zone.offsetAt (z : Zone) (sec : Int) : Int := (z.lookup sec).1
+
+/-- Time.Local(): the wall clock as a zero-offset GoTime (what Year(), Hour(), … read) -/
+def Zone.wall (z : Zone) (t : GoTime) : GoTime := ⟨t.sec + z.offsetAt t.sec, t.nsec⟩
+
+/-- the zone adjustment at the end of time.Date (time.go l.1550–1563): `unix` is the wall clock read as UTC -/
+def Zone.dateToUnix (z : Zone) (unix : Int) : Int :=
+  let (offset, start, end_) := z.lookup unix
+  if offset ≠ 0 then
+    let utc := unix - offset
+    let offset := if utc < start ∨ utc ≥ end_ then z.offsetAt utc else offset
+    unix - offset
+  else unix
+
+/-- ecmaTime.goTime() with t.location = time.Local -/
+def EcmaTime.goTimeIn (z : Zone) (e : EcmaTime) : GoTime :=
+  if tooLarge (ofInt e.year) (ofInt e.month) (ofInt e.day) (ofInt e.hour) (ofInt e.minute) (ofInt e.second) (ofInt e.millisecond)
+  then ⟨17280000000000, 0⟩
+  else let w := e.goTimeCore; ⟨z.dateToUnix w.sec, w.nsec⟩
+
+/-- the local getters: getFullYear, getMonth, getDate, getDay, getHours, getMinutes, getSeconds, getMilliseconds,
+    getYear (Annex B), getTimezoneOffset -/
+def observeLocal (z : Zone) (d : DateObj) : List Num :=
+  if d.isNaN then List.replicate 10 none
+  else
+    let w := z.wall d.time
+    [some (goYear w), some (goMonth w - 1), some (goDay w), some (goWeekday w), some (goHour w), some (goMinute w),
+     some (goSecond w), some (goDiv w.nsec 1000000), some (goYear w - 1900), some (goDiv (-(z.offsetAt d.time.sec)) 60)]
+
+/-- the local setters; `year2` is setYear (Annex B.2.5) -/
+inductive LSetter | ms | sec | min | hour | date | month | year | year2
+deriving DecidableEq, Repr
+
+def LSetter.base : LSetter → Setter
+  | .ms => .ms | .sec => .sec | .min => .min | .hour => .hour | .date => .date | .month => .month | .year => .year | .year2 => .year
+def LSetter.limit : LSetter → Nat
+  | .year2 => 1 | k => k.base.limit
+
+/-- setMilliseconds … setFullYear, setYear: builtinDateBeforeSet(From)(…, timeLocal = true, …) and the bodies -/
+def setLocal (z : Zone) (k : LSetter) (d : DateObj) (args : List FV) : DateObj × Num :=
+  let args := args.take k.limit
+  let vals := if args.isEmpty then none else numberArgs args
+  if d.isNaN ∧ k ≠ .year then (d, none)          -- only setFullYear restarts from +0 (setYear does not)
+  else
+    -- nanAsZero, local: date.SetTime(time.Date(1970, 1, 1, 0, 0, 0, 0, time.Local))
+    let base := if d.isNaN then newDate (ofInt (z.dateToUnix 0 * 1000)) else d
+    match vals with
+    | none => (invalidDateObject, none)
+    | some vs =>
+      let vs := match k, vs with
+        | .year2, [y] => [if 0 ≤ y ∧ y ≤ 99 then y + 1900 else y]
+        | _, vs => vs
+      let e := applySetter k.base (newEcmaTime (z.wall base.time)) vs
+      let d' := base.set (ofInt (goUnixMilli (e.goTimeIn z)))
+      (d', d'.value)
+
+def runLocalSetters (z : Zone) (d : DateObj) : List (LSetter × List FV) → DateObj × List Num
+  | [] => (d, [])
+  | (k, a) :: rest =>
+    let (d', r) := setLocal z k d a
+    let (fin, rs) := runLocalSetters z d' rest
+    (fin, r :: rs)
+
+/-- newDateTime(args, time.Local): the multi-argument constructor -/
+def newDateTimeIn (z : Zone) (args : List FV) : Num :=
+  let pick (i : Nat) (dflt : FV) : FV := (args[i]?).getD dflt
+  let fields := [pick 0 (.fin false 1900 0), pick 1 zero, pick 2 one, pick 3 zero, pick 4 zero, pick 5 zero, pick 6 zero]
+  if fields.any (fun x => isNaN x || isInf x) then none
+  else
+    let year := pick 0 (.fin false 1900 0)
+    let integer := trunc year
+    let year := if le zero integer && le integer (.fin false 99 0) then add (.fin false 1900 0) integer else year
+    if tooLarge year (pick 1 zero) (pick 2 one) (pick 3 zero) (pick 4 zero) (pick 5 zero) (pick 6 zero) then none else
+    let w := goDateMs (C05.goInt64 year) (C05.goInt64 (pick 1 zero) + 1) (C05.goInt64 (pick 2 one)) (C05.goInt64 (pick 3 zero))
+               (C05.goInt64 (pick 4 zero)) (C05.goInt64 (pick 5 zero)) (C05.goInt64 (pick 6 zero))
+    let um := goUnixMilli ⟨z.dateToUnix w.sec, w.nsec⟩
+    if beyondMax (ofInt um) then none else some um
+
 -- ---------------------------------------------------------------- scripted arguments (ToNumber side effects)
 
 /-- an argument as a script sees it: a plain number, an object whose valueOf logs its index and returns a
@@ -512,5 +636,99 @@ def parseOfISO (d : DateObj) : Num :=
   match toISOString d with
   | .ok s => (dateParseISO s).getD none
   | _ => none
+
+-- ---------------------------------------------------------------- Date.parse on the ES5 date-time family
+
+def digitsN : Nat → List Nat → Option (Int × List Nat)
+  | 0, s => some (0, s)
+  | n + 1, c :: s => match digitVal? c, digitsN n s with
+    | some d, some (v, r) => some (d * 10 ^ n + v, r)
+    | _, _ => none
+  | _ + 1, [] => none
+
+def expectByte (c : Nat) : List Nat → Option (List Nat)
+  | x :: s => if x = c then some s else none
+  | [] => none
+
+/-- the zone designator after matchDateTimeZone's rewrite: `Z` → +0000, `±hh:mm` → ±hhmm; (sign·seconds, hh, mm) -/
+def parseZoneDesignator (s : List Nat) : Option (Int × Int × Int) :=
+  match s with
+  | [90] => some (1, 0, 0)
+  | [sg, h1, h2, 58, m1, m2] =>
+    if sg ≠ 43 ∧ sg ≠ 45 then none else
+    match num2? h1 h2, num2? m1 m2 with
+    | some hh, some mm => some (if sg = 45 then -1 else 1, hh, mm)
+    | _, _ => none
+  | _ => none
+
+/-- optional `:ss` and `.sss` -/
+def parseSecFrac (s : List Nat) : Option (Int × Int × List Nat) :=
+  match expectByte 58 s with
+  | none => some (0, 0, s)
+  | some s1 => match digitsN 2 s1 with
+    | none => none
+    | some (ss, s2) => match expectByte 46 s2 with
+      | none => some (ss, 0, s2)
+      | some s3 => match digitsN 3 s3 with
+        | none => none
+        | some (ms, s4) => some (ss, ms, s4)
+
+/-- dateParse on `YYYY-MM-DDTHH:mm[:ss[.sss]](Z|±hh:mm)` (four-digit year): `none` = another shape (not modelled),
+    `some none` = NaN.  time.Parse range checks: month 1..12, day 1..daysIn, hour < 24, minute < 60, second < 60,
+    offset hour ≤ 24 and offset minute ≤ 60 (sic, format.go l.1266); then UnixMilli and TimeClip. -/
+def dateParseFamily (s : List Nat) : Option Num := do
+  let (y, s) ← digitsN 4 s
+  let s ← expectByte 45 s
+  let (mo, s) ← digitsN 2 s
+  let s ← expectByte 45 s
+  let (dd, s) ← digitsN 2 s
+  let s ← expectByte 84 s
+  let (hh, s) ← digitsN 2 s
+  let s ← expectByte 58 s
+  let (mi, s) ← digitsN 2 s
+  let (ss, ms, s) ← parseSecFrac s
+  let (sg, oh, om) ← parseZoneDesignator s
+  if mo ≤ 0 ∨ 12 < mo ∨ hh ≥ 24 ∨ mi ≥ 60 ∨ ss ≥ 60 ∨ dd < 1 ∨ dd > goDaysIn mo y ∨ oh > 24 ∨ om > 60 then pure none
+  else
+    let um := goUnixMilli (goDate y mo dd hh mi ss (ms * 1000000)) - sg * ((oh * 60 + om) * 60) * 1000
+    pure (if beyondMax (ofInt um) then none else some um)
+
+-- ---------------------------------------------------------------- round trips through the RFC1123 formats (stub level)
+
+/-- Date.parse(d.toUTCString()): Time.Format(RFC1123) in the "GMT" zone prints the year with four digits only for
+    0..9999 (appendInt), and time.Parse(RFC1123) wants exactly four; seconds resolution.  Behavioural stub. -/
+def parseOfUTCString (d : DateObj) : Num :=
+  if d.isNaN then none
+  else if 0 ≤ goYear d.time ∧ goYear d.time ≤ 9999 then some (d.time.sec * 1000) else none
+
+/-- Date.parse(d.toString()) under host zone z: the local wall clock with the zone abbreviation, which time.Parse
+    resolves through time.Local — unless the abbreviation ends in `Z` (`abbrevZ`), which matchDateTimeZone takes for
+    the ISO designator and rewrites. -/
+def parseOfToString (z : Zone) (abbrevZ : Bool) (d : DateObj) : Num :=
+  if d.isNaN then none
+  else if abbrevZ then none
+  else
+    let w := z.wall d.time
+    if 0 ≤ goYear w ∧ goYear w ≤ 9999 then some (d.time.sec * 1000) else none
+
+-- ---------------------------------------------------------------- toJSON on a generic object (§15.9.5.44)
+
+/-- what `valueOf` of the generic `this` returns (ToPrimitive with hint Number) -/
+inductive Prim | numFinite | numNaN | numInf | strNonNumeric | strNumeric | undef | boolTrue
+deriving DecidableEq, Repr
+
+inductive JsonOut | null | called | typeError
+deriving DecidableEq, Repr
+
+/-- builtinDateToJSON: `value.float64()` is ToNumber of the primitive, whatever its type -/
+def toJSONGeneric (p : Prim) (isoCallable : Bool) : JsonOut :=
+  let nonFinite := match p with
+    | .numFinite => false | .numNaN => true | .numInf => true
+    | .strNonNumeric => true | .strNumeric => false | .undef => true | .boolTrue => false
+  if nonFinite then .null else if isoCallable then .called else .typeError
+
+/-- `Date()` called as a function against `new Date().toString()`: the function formats the UTC clock in the "GMT"
+    zone, toString the local clock with the local abbreviation — equal only if time.Local is named GMT. -/
+def dateFunctionAgrees (localIsGMT : Bool) : Bool := localIsGMT
 
 end OttoVerif.C12
